@@ -1,6 +1,31 @@
 //! Checks whose executions are adversarial single-instance histories with all monitors attached.
 use crate::frame::{Batch, CheckDef};
+use crate::chaos::Chaos;
 use crate::hist::Hist;
+
+static X06: Chaos = Chaos { focus: "C06" };
+static X07: Chaos = Chaos { focus: "C07" };
+static X08: Chaos = Chaos { focus: "C08" };
+static X09: Chaos = Chaos { focus: "C09" };
+static X10: Chaos = Chaos { focus: "C10" };
+static X13: Chaos = Chaos { focus: "C13" };
+static X15: Chaos = Chaos { focus: "C15" };
+static X16: Chaos = Chaos { focus: "C16" };
+static X19: Chaos = Chaos { focus: "C19" };
+
+pub fn chaos_for(p: &str) -> &'static Chaos {
+    match p {
+        "C06" => &X06,
+        "C07" => &X07,
+        "C08" => &X08,
+        "C09" => &X09,
+        "C10" => &X10,
+        "C13" => &X13,
+        "C15" => &X15,
+        "C16" => &X16,
+        _ => &X19,
+    }
+}
 
 static H06: Hist = Hist { name: "adversarial-history", focus: "C06" };
 static H08: Hist = Hist { name: "adversarial-history", focus: "C08" };
@@ -12,7 +37,7 @@ static H16: Hist = Hist { name: "adversarial-history", focus: "C16" };
 static H19: Hist = Hist { name: "adversarial-history", focus: "C19" };
 
 const REAL: &str = "one real Foca instance (all of src/), the run's codec (hand-written strict codec, clean or dirty-on-full, bincode, postcard), SimHandler";
-const STUB: &str = "every peer, the network, the clock and the API caller are the simulator's generator (no second instance in this scenario)";
+const STUB: &str = "adversarial-history batch: every peer, the network, the clock and the API caller are the simulator's generator (single real instance); chaos-pool batch: 2..12 real instances, only network, clock, crashes and API calls are simulated";
 
 fn hist_def(property: &'static str, h: &'static Hist, rule: &'static str, quick: u64, thorough: u64) -> CheckDef {
     CheckDef {
@@ -23,10 +48,11 @@ fn hist_def(property: &'static str, h: &'static Hist, rule: &'static str, quick:
             "identity domain: 3..6 addresses x 4 generations, incarnations boundary-biased (0,1,MAX-1,MAX, known, known+1, uniform)".into(),
             "identities have a strict total conflict order per address (higher generation wins)".into(),
             "codec failures other than lack of space are not injected".into(),
+            "chaos-pool batch: each run enables a random subset of {latency beyond probe_rtt, loss <= 20%, duplication <= 10%, corruption <= 5%, partitions with heal, crash/restart with or without the saved membership snapshot, leave, stall, clock skew 0.5x..2x and lag, user identity change, custom broadcasts}".into(),
         ],
         real_components: REAL,
         stub_components: STUB,
-        batches: vec![Batch { scenario: h, quick, thorough }],
+        batches: vec![Batch { scenario: h, quick, thorough }, Batch { scenario: chaos_for(property), quick: 3_000, thorough: 150_000 }],
         extra: None,
     }
 }
